@@ -12,20 +12,36 @@ VARIABLES pc,          \* attempt -> "none" | hook point | "bailed"
           disposing, disposed,
           subsClosed,  \* subs.dispose ran: every When* channel closed, state ctxs cancelled
           dhRuns,      \* how many times the registered dispose handlers ran
-          ctxCancelled, whenDisposed
+          ctxCancelled, whenDisposed,
+          \* the queue goroutine inside processSubscriptions of an accepted
+          \* transition (machine.go processSubscriptions): the Process*
+          \* collectors REMOVE the matched bindings from the indexes and hand
+          \* their channels over ("held"); they are closed after the lock is
+          \* released.  subs.dispose() only sees what is still indexed.
+          qpc,         \* "none" | "q.collected" | "q.closed"
+          wIndexed,    \* waiters whose binding is still in a subscription index
+          wHeld,       \* waiters collected by the queue goroutine, not closed yet
+          wClosed      \* waiters whose channel is closed
 
-vars == <<pc, disposing, disposed, subsClosed, dhRuns, ctxCancelled, whenDisposed>>
+(* "matched": condition met by the in-flight transition; "other": not met     *)
+Waiters == {"matched", "other"}
+Matched == {"matched"}
+
+dvars == <<pc, disposing, disposed, subsClosed, dhRuns, ctxCancelled, whenDisposed>>
+qvars == <<qpc, wIndexed, wHeld, wClosed>>
+vars == <<dvars, qvars>>
 
 Init ==
   /\ pc = [a \in Attempts |-> "none"]
   /\ disposing = FALSE /\ disposed = FALSE /\ subsClosed = FALSE
   /\ dhRuns = 0 /\ ctxCancelled = FALSE /\ whenDisposed = FALSE
+  /\ qpc = "none" /\ wIndexed = Waiters /\ wHeld = {} /\ wClosed = {}
 
 Move(a, p) == pc' = [pc EXCEPT ![a] = p]
 
 (* doDispose entry                                                            *)
 Enter(a) == pc[a] = "none" /\ Move(a, "dd.enter")
-            /\ UNCHANGED <<disposing, disposed, subsClosed, dhRuns, ctxCancelled, whenDisposed>>
+            /\ UNCHANGED <<disposing, disposed, subsClosed, dhRuns, ctxCancelled, whenDisposed, qvars>>
 
 (* `if disposed return; if !disposing.CAS(false,true) return`                 *)
 CasDisposing(a) ==
@@ -33,7 +49,7 @@ CasDisposing(a) ==
   /\ IF disposed \/ disposing
      THEN Move(a, "bailed") /\ UNCHANGED disposing
      ELSE disposing' = TRUE /\ Move(a, "dd.disposing")
-  /\ UNCHANGED <<disposed, subsClosed, dhRuns, ctxCancelled, whenDisposed>>
+  /\ UNCHANGED <<disposed, subsClosed, dhRuns, ctxCancelled, whenDisposed, qvars>>
 
 (* wait for the queue (or DisposeTimeout) unless forced, then                 *)
 (* `if !disposed.CAS(false,true) return`                                      *)
@@ -41,28 +57,48 @@ CasDisposed(a) ==
   /\ pc[a] = "dd.disposing"
   /\ IF disposed THEN Move(a, "bailed") /\ UNCHANGED disposed
      ELSE disposed' = TRUE /\ Move(a, "dd.disposed")
-  /\ UNCHANGED <<disposing, subsClosed, dhRuns, ctxCancelled, whenDisposed>>
+  /\ UNCHANGED <<disposing, subsClosed, dhRuns, ctxCancelled, whenDisposed, qvars>>
 
 Lock(a) == pc[a] = "dd.disposed" /\ Move(a, "dd.locked")
-           /\ UNCHANGED <<disposing, disposed, subsClosed, dhRuns, ctxCancelled, whenDisposed>>
+           /\ UNCHANGED <<disposing, disposed, subsClosed, dhRuns, ctxCancelled, whenDisposed, qvars>>
 
+(* subs.dispose(): closes every binding that is still INDEXED                  *)
 SubsDispose(a) == pc[a] = "dd.locked" /\ subsClosed' = TRUE /\ Move(a, "dd.subsDisposed")
-                  /\ UNCHANGED <<disposing, disposed, dhRuns, ctxCancelled, whenDisposed>>
+                  /\ wClosed' = wClosed \cup wIndexed /\ wIndexed' = {}
+                  /\ UNCHANGED <<disposing, disposed, dhRuns, ctxCancelled, whenDisposed, qpc, wHeld>>
 
 Settle(a) == pc[a] = "dd.subsDisposed" /\ Move(a, "dd.handlers")
-             /\ UNCHANGED <<disposing, disposed, subsClosed, dhRuns, ctxCancelled, whenDisposed>>
+             /\ UNCHANGED <<disposing, disposed, subsClosed, dhRuns, ctxCancelled, whenDisposed, qvars>>
 
 Finish(a) ==
   /\ pc[a] = "dd.handlers"
   /\ dhRuns' = dhRuns + 1 /\ ctxCancelled' = TRUE /\ whenDisposed' = TRUE
   /\ Move(a, "dd.done")
-  /\ UNCHANGED <<disposing, disposed, subsClosed>>
+  /\ UNCHANGED <<disposing, disposed, subsClosed, qvars>>
+
+(* queue goroutine: ProcessWhen / ProcessWhenTime / ProcessWhenQueue /        *)
+(* ProcessWhenQuery take the matched bindings out of the indexes              *)
+QCollect ==
+  /\ qpc = "none"
+  /\ wHeld' = wIndexed \cap Matched /\ wIndexed' = wIndexed \ Matched
+  /\ qpc' = "q.collected"
+  /\ UNCHANGED <<dvars, wClosed>>
+
+(* `for _, ch := range toClose { closeSafe(ch) }` - whatever disposal did in  *)
+(* between: nobody else can reach these channels any more                     *)
+QClose ==
+  /\ qpc = "q.collected"
+  /\ wClosed' = wClosed \cup wHeld /\ wHeld' = {}
+  /\ qpc' = "q.closed"
+  /\ UNCHANGED <<dvars, wIndexed>>
+
+QStep == QCollect \/ QClose
 
 Step(a) == Enter(a) \/ CasDisposing(a) \/ CasDisposed(a) \/ Lock(a) \/ SubsDispose(a)
            \/ Settle(a) \/ Finish(a)
-Next == \E a \in Attempts : Step(a)
+Next == QStep \/ \E a \in Attempts : Step(a)
 Spec == Init /\ [][Next]_vars
-FairSpec == Spec /\ \A a \in Attempts : WF_vars(Step(a))
+FairSpec == Spec /\ WF_vars(QStep) /\ \A a \in Attempts : WF_vars(Step(a))
 
 ---------------------------------------------------------------------------
 (* C13 *)
@@ -70,5 +106,13 @@ Winners == {a \in Attempts : pc[a] \notin {"none", "dd.enter", "bailed"}}
 SingleWinner == Cardinality(Winners) <= 1
 DisposeHandlersOnce == dhRuns <= 1 /\ (whenDisposed => dhRuns = 1)
 AllWaitersReleased == whenDisposed => (subsClosed /\ ctxCancelled /\ disposed)
+(* every channel ever returned by a When* method is closed once the disposal  *)
+(* completed and the queue goroutine is not in the middle of its closing      *)
+(* loop - including the channels a running transition had already collected   *)
+QueueQuiet == qpc # "q.collected"
+CollectedWaitersReleased ==
+  (whenDisposed /\ QueueQuiet) => (wClosed = Waiters /\ wHeld = {} /\ wIndexed = {})
+NoWaiterLost == wIndexed \cup wHeld \cup wClosed = Waiters
 Completes == (\E a \in Attempts : pc[a] # "none") ~> whenDisposed
+HeldGetClosed == (qpc = "q.collected") ~> (qpc = "q.closed")
 =============================================================================
